@@ -8,5 +8,7 @@ CONSTANTS
   AllowLeave = TRUE
   AllowRelease = FALSE
   TsFix = TRUE
+  Late = {}
+  NeedKnown = FALSE
 INVARIANTS LeftOwnNothing
 CHECK_DEADLOCK FALSE
